@@ -355,14 +355,20 @@ class Audit:
             return self.__artifact
 
     def getReferencedBuildIds(self):
+        # Return the build-ids of all transitively referenced packages. The
+        # traversal must not stop at the first package on a path: that
+        # package's artifact might not be available to whoever follows the
+        # references further (e.g. "bob archive clean").
         ret = set()
         refs = self.__artifact.getReferences()
+        seen = set(refs)
         while refs:
             artifact = self.__references[refs.pop()]
             if artifact.getMetaData()["step"] == "dist":
                 ret.add(artifact.getBuildId())
-            else:
-                refs.update(artifact.getReferences())
+            new = artifact.getReferences() - seen
+            seen.update(new)
+            refs.update(new)
         return sorted(ret)
 
     def setRecipesAudit(self, recipesAudit):
